@@ -20,7 +20,7 @@ func init() {
 	core.Register(&core.Property{
 		ID:         "C16",
 		Exhaustive: true,
-		Rule:       "exhaustive: (names of the base and experimental tables ∪ N1/R4 specification list) x argument counts 0..4 x {default, WithExperimentalFuncs}; Compile acceptance must equal (name in table ∧ count within the table's bounds); accepted calls never fail with ErrWrongArity, on the specification receiver and on receivers of every System / FHIR kind; every implemented specification function is accepted with each count the specification allows and its specification examples evaluate to true; unimplemented ones yield an error. distinct_nontrivial = distinct (name, count, configuration) triples plus distinct fingerprint programs",
+		Rule:       "exhaustive: (names of the base and experimental tables ∪ N1/R4 specification list) x argument counts 0..4 x {default, WithExperimentalFuncs}; Compile acceptance must equal (name in table ∧ count within the table's bounds); accepted calls never fail with ErrWrongArity, on the specification receiver and on receivers of every System / FHIR kind; an accepted call is also accepted as a right operand, inside an indexer, as an argument, inside a criterion and in parentheses; every implemented specification function is accepted with each count the specification allows and its specification examples evaluate to true; unimplemented ones yield an error. distinct_nontrivial = distinct (name, count, configuration) triples plus distinct fingerprint programs",
 		Assumptions: []string{"the list of implemented functions is pinned to the specification functions implemented at the time of writing (DESIGN 5.16); removing one is reported",
 			"fingerprints are specification examples; they do not depend on Go function names"},
 		Run:    runC16,
@@ -94,6 +94,22 @@ func c16Call(env *core.Env, name string, n int, experimental bool, inTable bool,
 	}
 	if r.IsError() && errors.Is(r.Err, impl.ErrWrongArity) {
 		env.Violatef(fmt.Sprintf("C16/arity-error-after-accept/%s/%d", name, n), "`%s` [%s] was accepted by Compile but evaluation fails with an arity complaint: %v", src, cfg, r.Err)
+	}
+	// the same accepted call in other syntactic positions (right operand, indexer, argument, criterion, parentheses):
+	// whether a name resolves does not depend on where the call stands
+	if sp := specByName(name); !strings.Contains(src, "$") && (sp == nil || sp.Recv != "") {
+		for _, pos := range []string{"'x' & (%s).count().toString()", "1 = 1 and (%s).exists()", "(%s).exists() or false", "%%multi[(%s).count()]", "iif(true, %s)", "%%multi.where((%s).exists() or true)", "((%s))", "-1 + (%s).count()", "(%s).count() = (%s).count()"} {
+			psrc := strings.ReplaceAll(pos, "%s", src)
+			psrc = strings.ReplaceAll(psrc, "%%", "%")
+			pex, pcr := fx.Compile(env, psrc, co...)
+			env.Cover("accepted-in-position")
+			if pcr.IsPanic() {
+				env.Violatef(fx.PanicSig("C16", pcr), "Compile(`%s`) => %s", psrc, pcr.Short())
+			} else if pex == nil {
+				env.Violatef(fmt.Sprintf("C16/compile-rejected-in-position/%s/%d", name, n), "`%s` [%s] compiles, but the same call inside `%s` does not: %s", src, cfg, psrc, trunc(pcr.Short(), 160))
+				break
+			}
+		}
 	}
 	// the same accepted call on receivers of every kind: an implementation that forwards its arguments to a
 	// stricter sibling for some input types complains about arity only there
